@@ -340,6 +340,9 @@ impl<'a> Gen<'a> {
         Op::Block { ts: self.ts, hash: self.hash_mode(), txs, finalise }
     }
     pub fn read_op(&mut self) -> ReadOp {
+        if self.rng.chance(1, 16) {
+            return ReadOp::BtcOverrides;
+        }
         let r = self.read_op_plain();
         if matches!(r, ReadOp::Balance { .. } | ReadOp::Getters) || !self.rng.chance(1, 4) {
             return r;
